@@ -52,6 +52,86 @@ CLAIMED = {
   "Trusted: Lean kernel; hand mirrors Model.ByteSet/PatBuild/PatMatch/Gsub (tied by level B incl. error kinds and exact budget used); extract/bytesets; harness/oracle parsers. "
   "Seven recorded defects (known_findings.json, C15-*) with counterexample theorems. CPU accounting is checked as an inequality against the mirror's step counter. %+alphanumeric "
   "non-class, [%a-z], [a-%x], []-x], ^ in gmatch, invalid replacement escapes are left open by the manual and not compared at level A.", "6/C15, 10/C15, 14/C15"),
+ "C03": ("proof",
+  "Lean 4 refinement proof: a line-by-line mirror of runtime/hashtable.go (array part, open-addressing hash part with relocated chains, tombstones, growth and array migration), parameterised by the key hash, keeps a decidable invariant on every operation history and refines Spec.Map; correspondence with the real runtime.Table and compiled Lua through a verif dump hook, the model run on the exported key hashes",
+  "27 theorems in lean/GoluaVerif/Props/C03*.lean, re-checked every run. For every hash function and every history of Set/Reset operations Model.Table neither panics nor loops, keeps Inv "
+  "(array border discipline, nextFree, no duplicate keys, normal keys, chain invariants I1-I3 including all three relocation cases of insertNewKeyValue, hash growth, array migration with a free "
+  "slot afterwards), and denotes the abstract map of the manual (value most recently assigned to an equal normalised key); #t is a border; value equality and key equality agree on all key "
+  "values (key_eq_iff over the exact F64 model); next-traversals interleaved with clear/assign of existing fields (through Reset or Set/rawset, also while the hash part is full) visit each "
+  "surviving key exactly once; __index/__newindex are consulted only when the raw key is absent. All theorems are full strength; the five defects the first version of this check found are "
+  "repaired (known_findings.json fixed: lines) and their witnesses are regression cases in corpus/C03. The model is tied to the code on every run: all outputs and the complete private state "
+  "(hook dump) of runtime.Table and of compiled Lua (t[k]=v, rawset, next, pairs, #, __index/__newindex) are compared with the model fed with the real key hashes, outputs are validated against "
+  "the spec relations, and Inv is evaluated on every dump; exhaustive short set/delete sequences over small key alphabets in linear, array and hashed configurations plus random sequences to length 400.",
+  "Trusted: Lean kernel; harness/oracle parsers; the model's abstraction of the slot word (index<<2|flags as a triple) and of ToIntNoString on floats (Spec.Num.floatToInt?, compared with the "
+  "regenerated FloatToInt on every float key; equality proved separately in Props/C02_Comp.floatToInt_exact); Go's hash being a function of the normalised key is an assumption checked per line. "
+  "The tie between the proved model and hashtable.go is correspondence (level B + Inv monitor), not proof; a behaviour-preserving rewrite of the algorithm needs the model updated. Metatable "
+  "chains beyond one step of Index/SetIndex and the base library's pairs with __pairs are exercised only by the Lua leg.", "6/C03, 10/C03, 14/C03"),
+ "C09": ("proof",
+  "Lean 4: refinement of thread.go's status/caller model to the Lua coroutine status machine over all histories; "
+  "generic interleaving theorems for every family of event programs obeying a decidable hand-off discipline, with the "
+  "event order of thread.go regenerated (go/ast) and re-checked on every run; exhaustive + random coroutine scripts on "
+  "golua validated against the spec; race detector as supporting evidence",
+  "Props/C09.lean, all histories of Model.CoSeq (status, caller, closeErr, close stack as in Resume/Yield/Close/end): "
+  "status_chain_inv, resume_only_suspended, close_only_suspended_or_dead, error_kills_and_delivers, "
+  "values_transferred_exactly (CoSeq refines Spec.Co event-for-event), no_protocol_panic — full.  Interleaving model "
+  "Model.CoProto (any number of goroutines, any schedule; lock/unlock/send/recv rendezvous/touch/run events), for EVERY "
+  "family of event programs obeying the decidable discipline Disc: baton_unique, no_lock_deadlock, stuck_goroutines_parked "
+  "— full; table_programs_obey_disc/baton_unique_of_table (every program assembled from an event table that passes "
+  "discTable obeys Disc) — full; no_deadlock_partial (a stuck state is 'main finished' or 'baton holder sends on a channel "
+  "nobody receives on'; that thread.go's sends always find their receiver is NOT proved, it rests on the status checks "
+  "and is covered by the watchdog correspondence only).  Per-run obligations over Generated/ThreadEvents.lean by decide: "
+  "threadEvents_disc_residual (only the two known violations, both in Thread.end), threadEvents_proposed_disc, "
+  "threadEvents_known_present_or_disc, threadEvents_no_unclassified.  thread.go's end does NOT obey the discipline today: "
+  "baton_unique_counterexample (race) and no_deadlock_counterexample (self-deadlock) are proved schedules; both are "
+  "known findings.  Correspondence (level A): every script of <= 4 (quick) / <= 5 (thorough) actions over <= 3 "
+  "coroutines + random longer ones, traces with values, statuses, goroutine deltas and a deadlock watchdog, compared "
+  "with Spec.Co through the compiled oracle.",
+  "Trusted/assumed: Go's memory model, channels as rendezvous, mutexes, scheduler fairness; the extractor "
+  "(extract/threadevents) and its classification of calls into touch/run; goroutine termination is observed "
+  "(runtime.NumGoroutine), not proved; the -race/GOMAXPROCS runs of the thorough tier sample schedules and are "
+  "supporting evidence only.  Whether to-be-closed handlers of a quota-killed coroutine run is left open.", "6/C09"),
+ "C10": ("proof",
+  "Lean 4 compiler-correctness theorem for the to-be-closed machinery (static close-stack heights of ir/builder.go + run-time close stack) against a big-step "
+  "semantics of manual 3.3.8, for every program of a block-structured mini-language and every handler behaviour; tied to golua by event-log correspondence and by "
+  "comparing the clpush/cltrunc skeleton of golua's own disassembly with the compile model",
+  "Props/C10.lean, re-checked every run: compile_correct (every well-formed program of the mini-language {local <close>, statement, do-block, loop, break, goto out of k blocks, "
+  "return, error, pcall(function), (function)(), yield} compiles, and the close-stack machine running the compiled code logs exactly the handler calls, error arguments and "
+  "interleaving with other statements that Spec.Tbc prescribes, for every handler behaviour incl. handlers that raise), coroutine_close_runs_pending (same for a coroutine closed at "
+  "a yield that is not inside a pcall), exactly_once, reverse_order, handler_error_replaces, non_closable_rejected, and the proved counterexample "
+  "coroutine_close_in_pcall_counterexample. Proof in two inductions: Proofs/TbcDyn (static heights = stack sizes at block entry, exact equality of machine states) and "
+  "Proofs/TbcSpec (truncate-before-jump / cleanup-only-at-pcall versus block-by-block closing). Correspondence: chains of up to 3 nested constructs x to-be-closed declarations "
+  "before/after each construct x every exit kind at every level x raising handlers (always / only without / only with an error in flight), rendered under pcall, as a coroutine "
+  "body, with trailing (back) labels and with coroutine.close at a yield, plus random wider programs; golua's event log must equal Spec.Tbc (level A) and Model (level B), and the "
+  "clpush/cltrunc h/jump/return skeleton of every function (from golua's disassembler) must equal Model.TbcCompile's.",
+  "The theorem is about Model.TbcCompile/Model.TbcVM; that these mirror ir/builder.go, astcomp/compstat.go, luacont.go and thread.go rests on the correspondence (exhaustive to depth 2, "
+  "sampled at depth 3 in thorough; sampled in quick). Control flow itself (jumps landing on the right instruction) is kept structured in the model: C01's subject. Not modelled: the "
+  "tail-call exclusion (getTailCall/HasPendingCloseActions), generic-for closing values, memory/CPU kills inside handlers, multiple <close> names in one local statement. One recorded "
+  "defect: C10-coclose-inside-pcall-discards.", "6/C10, 14/C10"),
+ "C16": ("proof",
+  "Lean 4 theorems: the prepfor/advfor mirror built on the comparison functions REGENERATED from runtime/comp.go equals the manual's numeric for (forlimit clipping, precomputed "
+  "count, no wrap-around; float loop by repeated exact-rounded addition) + exhaustive lattice-of-triples correspondence through the full pipeline",
+  "Props/C16.lean, re-checked every run over Generated.Comp: int_loop_values_partial (every int64 start, every int64 step /= 0, every non-NaN limit incl. floats beyond the int64 "
+  "range and +-inf: the values the body sees are exactly the manual's), int_loop_terminates (explicit count, no fuel: the start register is the k-th term after k advfor for k < count "
+  "and nil after exactly count), count_le_two64, no_wraparound, count_maximal, float_loop_values_partial (float loops, all non-NaN operands except inf/-inf start/step), "
+  "float_limit_readings_agree, zero_step_error, non_number_error, body_assignment_irrelevant, and the proved counterexamples int_loop_values_nan_counterexample / "
+  "float_loop_nan_counterexample. Correspondence: compiled `for i = a, b, c do emit(i, math.type(i)) end` capped at 40 iterations over the lattice of triples (27 values quick / 69 "
+  "thorough: ints around 0, +-2^53, min/maxinteger; floats +-2^63 and neighbours, +-inf, NaN, fractions; numeric strings; non-numbers), exhaustively, as arguments / with the step "
+  "omitted / as literals / with the body assigning to the loop variable, plus random triples near start+k*step; level A against Spec.For, level B against Model.For.",
+  "Uses Props/C02_Comp (exactness of the regenerated comparisons) and Props/C02_F64. Float addition is the exact model F64.fadd, validated bit for bit against the hardware on every "
+  "run. Tolerated where the manual is open: lvm.c's reading for NaN operands in float loops, a float loop with an integer limit beyond 2^53 (exact vs rounded limit), numeric strings "
+  "as initial value/step (integer by syntax vs float). String->number conversion is taken from golua's tonumber (C02). Two recorded defects (NaN limit/operands: C16-nan-limit-int-loop, "
+  "C16-nan-float-loop).", "6/C16, 14/C16"),
+ "C18": ("proof",
+  "Lean 4 invariant proofs over hand-written state-machine models of clonepool.go and of its call sites + level-A/B "
+  "correspondence on the real ClonePool/Runtime through a deterministic Go-finaliser hook + Lua-level logs under the real collector",
+  "Theorems in Props/C18.lean (at-most-once per marking epoch, release once and after finalise, reverse marking order, re-mark "
+  "resets order, killed contexts release without finalising) hold for ALL event histories of Model.ClonePool/GcRuntime; "
+  "exactly-once-by-close and never-finalised-while-reachable are proved `_partial` with `_counterexample`s replayed on the code "
+  "(three known findings).  The models are tied to runtime/internal/luagc/clonepool.go, runtime.go, thread.go, "
+  "runtimecontextmanager.go by per-op diffs on ~170k (quick) / ~4.9M (thorough) histories.",
+  "Trusted: Lean kernel; the hand-written models (tie = correspondence only); Go's collector modelled as an environment that "
+  "fires finalisers only for unreferenced registered objects; runtime.SetFinalizer's double-set throw modelled as `fatal`; "
+  "UnsafePool/SafePool not modelled; resource accounting of finalisers is C05/C06.", "6/C18"),
 }
 
 NOT_YET = "machinery for this property is not built yet in this revision (see DESIGN.md section 9 build order); not claimed"
